@@ -239,6 +239,11 @@ def dss_round(ctx, L, K, mode, enc, hname, full, rand_path="randfunc"):
              ("bitflip", flip_at(sig, len(sig) - 1, rng), False),
              ("bitflip", flip_at(sig, (len(sig) - 2 * nl) + rng.randrange(nl) if enc == "binary" else 4, rng), False)]
     cands += range_candidates(L, r, s, q, enc, ctx)
+    if K.kind == "ecdsa":
+        # r chosen so that u1 G + u2 Q is the point at infinity (z + r d = 0 mod n): never valid
+        r_inf = (-L.sigs.bits2int(digest, q.bit_length())) * pow(K.d, -1, q) % q
+        if r_inf:
+            cands.append(("R=infinity", enc_rs(L, r_inf, s, q, enc), False))
     cands += [(kk, b, False) for kk, b in shape_candidates(L, model_sig, r, s, q, enc, rng)]
     if not full:
         cands = rng.sample(cands, 8)
